@@ -8,13 +8,14 @@ FSN = [8000, 12000, 16000, 24000, 48000]
 
 def obligations():
     L = []
-    for fsi, sd, tier in ((0, 0, 'quick'), (4, 0, 'quick'), (2, 0, 'thorough'), (1, 1, 'thorough'), (3, 0, 'thorough')):
-        L.append(Ob('H1.plc_fec_duration_and_placement.fs%d.sd%d' % (FSN[fsi], sd), 'C01_native.c', ['src/opus.c'], ['-DFSI=%d' % fsi, '-DSD=%d' % sd, '-DPL=8', '-DMAXC=4', '-DC09ONLY'], unwind=1,
+    for fsi, sd, tier, pl, mc, ms in ((0, 0, 'quick', 4, 2, 40), (4, 0, 'quick', 4, 2, 40), (0, 0, 'thorough', 8, 4, 120), (4, 0, 'thorough', 8, 4, 120), (2, 1, 'thorough', 8, 4, 120)):
+        L.append(Ob('H1.plc_fec_duration_and_placement.fs%d.sd%d.max%dms' % (FSN[fsi], sd, ms), 'C01_native.c', ['src/opus.c'],
+                    ['-DFSI=%d' % fsi, '-DSD=%d' % sd, '-DPL=%d' % pl, '-DMAXC=%d' % mc, '-DMAXMS=%d' % ms, '-DC09ONLY'], unwind=1,
                     replace=['opus_decode_frame_REAL:stub_decode_frame'],
-                    unwindset=['harness:9', 'opus_decode_native:2', 'opus_decode_native@pcm_count < frame_size:50', 'opus_decode_native@i<count:6', 'rec:opus_decode_native:3', 'opus_packet_parse_impl:9', 'rfc_parse:9'],
-                    functions=['opus_decode_native', 'opus_packet_parse_impl'], budget=1500, tier=tier, replay=False, mem_gb=16,
+                    unwindset=['harness:9', 'opus_decode_native:2', 'opus_decode_native@pcm_count < frame_size:%d' % (ms * 2 // 5 + 2), 'opus_decode_native@i<count:%d' % (mc + 2), 'rec:opus_decode_native:3', 'opus_packet_parse_impl:%d' % (pl + 1), 'rfc_parse:%d' % (pl + 1)],
+                    functions=['opus_decode_native', 'opus_packet_parse_impl'], budget=(900 if tier == 'quick' else 3000), tier=tier, replay=False, mem_gb=16,
                     stubs=['opus_decode_frame: synth stub (C01-H3 contract)'],
-                    bounds='Fs=%d; any decoder state; NULL / empty packet, or decode_fec=1 with any 8-byte packet (<= 4 frames, any len); any frame_size 1..120 ms' % FSN[fsi]))
+                    bounds='Fs=%d; any decoder state; NULL / empty packet, or decode_fec=1 with any %d-byte packet (<= %d frames, any len); any frame_size from 1 sample to %d ms' % (FSN[fsi], pl, mc, ms)))
     L.append(Ob('H2.has_lbrr_flag_positions', 'C01_inspect.c', INS_SRC, ['-DMAXLEN=12', '-DCODE=0'], unwind=1,
                 unwindset=['harness:13', 'harness.2:49', 'opus_packet_parse_impl:4'], functions=['opus_packet_has_lbrr'], budget=600,
                 bounds='any code-0 packet of 0..12 bytes: opus_packet_has_lbrr == the LBRR flag at its RFC 6716 4.2.3 position for 10/20/40/60 ms mono/stereo SILK and hybrid frames, 0 for CELT'))
